@@ -58,15 +58,16 @@ type fctx struct {
 	real   bool // the channel was opened by the real protocol
 	burnt  bool // a handler is stuck or panicked: the client must be replaced
 
-	sts   []string
-	stIdx map[string]int
-	ids   []string
-	idIdx map[string]int
-	sigs  map[string]string
-	atok  map[string]uint64 // wallet address -> token of the ideal scheme
-	ntok  uint64
-	vaccs []*simwallet.Account // participants of virtual channels (the harness holds their keys)
-	keys  map[string]*simwallet.Account
+	sts      []string
+	stIdx    map[string]int
+	ids      []string
+	idIdx    map[string]int
+	lastSnap string // term of the snapshot in the context of the case being rendered
+	sigs     map[string]string
+	atok     map[string]uint64 // wallet address -> token of the ideal scheme
+	ntok     uint64
+	vaccs    []*simwallet.Account // participants of virtual channels (the harness holds their keys)
+	keys     map[string]*simwallet.Account
 }
 
 func (f *fctx) peer() int { return f.me ^ 1 }
@@ -102,8 +103,25 @@ func (f *fctx) idTerm(id channel.ID) string {
 	return fmt.Sprintf("(I %d)", i)
 }
 
+// zTerm renders an integer inside a term that is delimited by %Z as a whole.
+func zTerm(z *big.Int) string {
+	if z.BitLen() < 60 {
+		if z.Sign() < 0 {
+			return "(" + z.String() + ")"
+		}
+		return z.String()
+	}
+	return hx.Z(z)
+}
+
+func zList(l []channel.Bal) string { return hx.ListOf(l, zTerm) + "%Z" }
+
+func balsTerm(b channel.Balances) string {
+	return hx.ListOf(b, func(r []channel.Bal) string { return hx.ListOf(r, zTerm) }) + "%Z"
+}
+
 func (f *fctx) subAllocTerm(l channel.SubAlloc) string {
-	return hx.App("mkSA", f.idTerm(l.ID), hx.ListOf(l.Bals, hx.Z),
+	return hx.App("mkSA", f.idTerm(l.ID), zList(l.Bals),
 		hx.ListOf(l.IndexMap, func(i channel.Index) string { return hx.N(uint64(i)) }))
 }
 
@@ -117,7 +135,7 @@ func (f *fctx) stateTerm(s *channel.State) string {
 	if !short {
 		return cv.State(s)
 	}
-	return hx.App("S0", hx.N(s.Version), cv.Bals(s.Balances), hx.ListOf(s.Locked, f.subAllocTerm), hx.Bool(s.IsFinal))
+	return hx.App("S0", hx.N(s.Version), balsTerm(s.Balances), hx.ListOf(s.Locked, f.subAllocTerm), hx.Bool(s.IsFinal))
 }
 
 func (f *fctx) st(s *channel.State) int {
@@ -212,7 +230,7 @@ func (f *fctx) paramsTerm() string {
 }
 
 func (f *fctx) iceptTerm(ic icept) string {
-	return hx.App("mkIc", f.idTerm(ic.ID), cv.Bals(ic.Bals), hx.Bool(ic.Awaited))
+	return hx.App("mkIc", f.idTerm(ic.ID), balsTerm(ic.Bals), hx.Bool(ic.Awaited))
 }
 
 // header: the file-level definitions the short forms refer to.
